@@ -100,7 +100,7 @@ func genMap(rng *rand.Rand, maxLen int, n int) map[string]string {
 	for i := 0; i < n; i++ {
 		kl := pick(rng, 0, 1, 2, 3, 8, 16)
 		vl := pick(rng, 0, 1, 5, 20)
-		if rng.Intn(20) == 0 {
+		if rng.Intn(20) == 0 && n <= 5 { // boundary-length values only in small maps (model cost is quadratic)
 			vl = maxLen
 		}
 		k := fmt.Sprintf("%d", i) + randBytes(rng, kl)
